@@ -32,6 +32,34 @@ struct Val<int> {
     static const char* name() { return "int"; }
 };
 
+// an element type with an initializer-list constructor next to a (count, value) one: emplace_*(3u, id) must construct
+// "3 copies of id" (direct initialisation with the arguments given), the way std::list::emplace_* does
+using UVec = std::vector<uint32_t>;
+template<>
+struct Val<UVec> {
+    static UVec make(uint32_t id) { return UVec(3u, id); }
+    static uint32_t id(const UVec& v)
+    {
+        if (v.size() != 3 || v[0] != v[1] || v[1] != v[2])
+            vrf::violation("oracle:element_differs_from_the_constructor_arguments_given", "{\"size\":" + std::to_string(v.size()) + ",\"first\":" + std::to_string(v.empty() ? 0 : v[0]) + "}");
+        return v[0];
+    }
+    static const char* name() { return "std::vector<uint32_t>"; }
+};
+// emplace with real constructor arguments where the element type has a multi-argument constructor, with a whole value otherwise
+template<class T, class L>
+inline void emplace_at(L& list, bool front, uint32_t id)
+{
+    if constexpr (std::is_same<T, UVec>::value) {
+        uint32_t n = 3;
+        if (front) list.emplace_front(n, id);
+        else list.emplace_back(n, id);
+    } else {
+        if (front) list.emplace_front(Val<T>::make(id));
+        else list.emplace_back(Val<T>::make(id));
+    }
+}
+
 struct Act {
     char kind;   // R traverse, E erase, F/B push_front/back, f/b emplace_front/back, H short handle, K keep handle, W traverse with a write handle
     int arg;     // E: target id (-1 all, -2 first); F/B/f/b: id; R/W: pause index (-1 none); K: number of following actions to keep the handle for
@@ -169,8 +197,7 @@ struct Fixture {
                     ev.call = vrf::now();
                     if (a.kind == 'F') h->push_front(Val<T>::make(ev.id));
                     else if (a.kind == 'B') h->push_back(Val<T>::make(ev.id));
-                    else if (a.kind == 'f') h->emplace_front(Val<T>::make(ev.id));
-                    else h->emplace_back(Val<T>::make(ev.id));
+                    else emplace_at<T>(*h, a.kind == 'f', ev.id);
                     handles_taken.fetch_add(1, std::memory_order_relaxed);
                     ev.ret = vrf::now();
                     muts[tid].push_back(ev);
